@@ -47,6 +47,7 @@ def mk_writer(I, fixedlen=None, cls="FixedBytesColumn.Writer", extra=None):
 
 
 def register(R, tier="quick"):
+    register_varbytes(R)
     lens = [None]            # symbolic fixedlen first; the variants below pin it when the solver needs linear arithmetic
     variants = [dict(fixedlen=n) for n in (1, 2, 4, 8, 5)]
 
@@ -263,3 +264,159 @@ def register(R, tier="quick"):
                ensures=[lambda I, env: ngetitem_post(I, env)], returns="int",
                canaries=[Canary("always-negated", "if self._reverse:", "if not self._reverse:")],
                note="sort key of a non-reversed numeric column is the row's own number")
+
+
+# ====================================================================== VarBytesColumn (variable-length rows)
+class GArr(Abstract):
+    """GrowableArray as an abstract list of integers (class A: its re-typing on overflow is covered by the bounded columns
+    harness, case VarBytes-offsets-retype): append, extend, len, indexing; `.array` is the list itself."""
+    def __init__(self, I, name):
+        self.name = name
+        self.arr = z3.Array(I.fresh_name(name), z3.IntSort(), z3.IntSort())
+        self.n = z3.Int(I.fresh_name("n" + name))
+        I.assume(self.n >= 0)
+
+    def havoc(self, I):
+        self.arr = z3.Array(I.fresh_name(self.name), z3.IntSort(), z3.IntSort())
+        self.n = z3.Int(I.fresh_name("n" + self.name))
+        I.assume(self.n >= 0)
+
+    def __deepcopy__(self, memo):
+        c = GArr.__new__(GArr)
+        c.name, c.arr, c.n = self.name, self.arr, self.n
+        return c
+
+    def a_n(self, I):
+        return self.n
+
+    def length(self, I):
+        return self.n
+
+    def at(self, k):
+        return z3.Select(self.arr, to_z3(k))
+
+    def getitem(self, I, idx, node=None):
+        idx = to_z3(idx)
+        if not I.in_spec and not I.decide(z3.And(idx >= 0, idx < self.n), "index-in-bounds"):
+            I.raise_builtin("IndexError", node)
+        return z3.Select(self.arr, idx)
+
+    def m_append(self, I, x):
+        self.arr = z3.Store(self.arr, self.n, to_z3(x))
+        self.n = self.n + 1
+
+    def m_extend(self, I, xs):
+        from pyvc.values import SymList
+        if not isinstance(xs, SymList):
+            from pyvc.values import OutsideSubset
+            raise OutsideSubset("GrowableArray.extend of %r" % (xs,))
+        new = z3.Array(I.fresh_name(self.name + "_ext"), z3.IntSort(), z3.IntSort())
+        k = z3.Int(I.fresh_name("ek"))
+        I.assume(z3.ForAll([k], z3.Implies(z3.And(0 <= k, k < self.n), z3.Select(new, k) == z3.Select(self.arr, k))))
+        I.assume(z3.ForAll([k], z3.Implies(z3.And(self.n <= k, k < self.n + xs.n), z3.Select(new, k) == z3.Select(xs.arr, k - self.n))))
+        self.arr = new
+        self.n = self.n + xs.n
+
+
+def register_varbytes(R):
+    V = C + ":VarBytesColumn.Writer."
+
+    def mkw(I):
+        f = RecFile(I)
+        return Obj(I.repo.klass(C, "VarBytesColumn.Writer"),
+                   {"_dbfile": f, "_count": z3.Int("count"), "_lengths": GArr(I, "lengths"), "_offsets": GArr(I, "offsets"),
+                    "_offset_base": z3.Int("offset_base"), "allow_offsets": True, "cutoff": z3.Int("cutoff")})
+
+    def parts(s):
+        return s.fields["_dbfile"], s.fields["_count"], s.fields["_lengths"], s.fields["_offsets"], s.fields["_offset_base"]
+
+    def wf(I, s):
+        """rows 0.._count-1 are described by parallel arrays; offsets are the running sums of the lengths (stated locally:
+        each offset is the previous one plus the previous length), the next write position is base + offset_base, and
+        the data of a non-empty row is the string written at base + its offset"""
+        f, cnt, ln, of, ob = parts(s)
+        k = z3.Int("vk")
+        return z3.And(cnt >= 0, ln.n == cnt, of.n == cnt, ob >= 0, f.wpos == f.base + ob,
+                      z3.ForAll([k], z3.Implies(z3.And(0 <= k, k < cnt), z3.And(ln.at(k) >= 0, of.at(k) >= 0, of.at(k) + ln.at(k) <= ob))),
+                      z3.ForAll([k], z3.Implies(z3.And(0 <= k, k + 1 < cnt), of.at(k + 1) == of.at(k) + ln.at(k))),
+                      z3.Implies(cnt > 0, z3.And(of.at(0) == 0, ob == of.at(cnt - 1) + ln.at(cnt - 1))),
+                      z3.Implies(cnt == 0, ob == 0),
+                      z3.ForAll([k], z3.Implies(z3.And(0 <= k, k < cnt, ln.at(k) > 0), LEN(f.at(f.base + of.at(k))) == ln.at(k))))
+
+    def row(s, k, empty):
+        """logical row k: the string stored for it, or `empty` when it has none"""
+        f, cnt, ln, of, ob = parts(s)
+        return z3.If(z3.And(k < cnt, ln.at(k) > 0), f.at(f.base + of.at(k)), empty)
+
+    EMPTY = z3.Int("empty_vid")
+
+    def fill_post(I, env):
+        s, s0 = env["self"], I.old_env["self"]
+        f, cnt, ln, of, ob = parts(s)
+        f0, cnt0, ln0, of0, ob0 = parts(s0)
+        dn = env["docnum"]
+        k = z3.Int("fk")
+        gap = z3.If(dn > cnt0, dn - cnt0, 0)
+        return [z3.And(cnt == cnt0, ob == ob0, f.wpos == f0.wpos, f.content == f0.content),
+                z3.And(ln.n == ln0.n + gap, of.n == of0.n + gap),
+                z3.ForAll([k], z3.Implies(z3.And(0 <= k, k < cnt0), z3.And(ln.at(k) == ln0.at(k), of.at(k) == of0.at(k)))),
+                z3.ForAll([k], z3.Implies(z3.And(cnt0 <= k, k < cnt0 + gap), z3.And(ln.at(k) == 0, of.at(k) == ob0)))]
+
+    R.contract(V + "fill", props=["C08"], setup=lambda I: {"self": mkw(I), "docnum": z3.Int("docnum")},
+               requires=[lambda I, env: wf(I, env["self"])],
+               ensures=[lambda I, env: fill_post(I, env)[0], lambda I, env: fill_post(I, env)[1],
+                        lambda I, env: fill_post(I, env)[2], lambda I, env: fill_post(I, env)[3]],
+               modifies=["self._lengths", "self._offsets"],
+               canaries=[Canary("one-row-gap-not-filled", "if docnum > self._count:", "if docnum > self._count + 1:"),
+                         Canary("gap-offsets-zero", "base = self._offset_base", "base = 0")],
+               note="rows count .. docnum-1 get length 0 and the current end offset; data and earlier rows are untouched")
+
+    def add_post(I, env):
+        s, s0 = env["self"], I.old_env["self"]
+        v, dn = env["v"], env["docnum"]
+        k = z3.Int("ak")
+        newrow = z3.If(LEN(v.vid) > 0, v.vid, EMPTY)
+        return [wf(I, s),
+                z3.ForAll([k], z3.Implies(k >= 0, row(s, k, EMPTY) == z3.If(k == dn, newrow, row(s0, k, EMPTY))))]
+
+    R.contract(V + "add", props=["C08"], setup=lambda I: {"self": mkw(I), "docnum": z3.Int("docnum"), "v": BytesVal.fresh(I, "v")},
+               requires=[lambda I, env: wf(I, env["self"]), "docnum >= self._count", "blen(v) >= 0"],
+               ensures=[lambda I, env: add_post(I, env)[0], lambda I, env: add_post(I, env)[1]],
+               modifies=["self._dbfile", "self._lengths", "self._offsets", "self._offset_base", "self._count"],
+               canaries=[Canary("count-not-advanced", "self._count = docnum + 1", "self._count = docnum"),
+                         Canary("offset-after-advance", "self._offsets.append(self._offset_base)", "self._offsets.append(self._offset_base + len(v))"),
+                         Canary("base-not-advanced", "self._offset_base += len(v)", "pass"),
+                         Canary("no-fill", "self.fill(docnum)", "pass")],
+               note="the logical column becomes L[docnum := v] (an empty string reads as the default); lengths and offsets stay "
+                    "parallel running sums, so every other row still addresses its own bytes")
+
+    # ---- reader: row k = the bytes at basepos + offsets[k] of length lengths[k]
+    def mkr(I):
+        f = RecFile(I)
+        return Obj(I.repo.klass(C, "VarBytesColumn.Reader"),
+                   {"_dbfile": f, "_basepos": f.base, "_lengths": GArr(I, "rlengths"), "_offsets": GArr(I, "roffsets"),
+                    "_doccount": z3.Int("doccount")})
+
+    def r_wf(I, env):
+        s = env["self"]
+        f, ln, of = s.fields["_dbfile"], s.fields["_lengths"], s.fields["_offsets"]
+        k = z3.Int("rk")
+        return z3.And(ln.n == of.n, env["docnum"] >= 0, env["docnum"] < ln.n,
+                      z3.ForAll([k], z3.Implies(z3.And(0 <= k, k < ln.n), z3.And(ln.at(k) >= 0, of.at(k) >= 0))),
+                      z3.ForAll([k], z3.Implies(z3.And(0 <= k, k < ln.n, ln.at(k) > 0), LEN(f.at(f.base + of.at(k))) == ln.at(k))))
+
+    def r_post(I, env):
+        s = env["self"]
+        f, ln, of = s.fields["_dbfile"], s.fields["_lengths"], s.fields["_offsets"]
+        dn = env["docnum"]
+        res = env["result"]
+        if isinstance(res, bytes):       # the literal default returned for an empty row
+            return z3.And(z3.BoolVal(res == b""), z3.Not(ln.at(dn) > 0))
+        return z3.And(ln.at(dn) > 0, res.vid == f.at(f.base + of.at(dn)))
+
+    R.contract(C + ":VarBytesColumn.Reader.__getitem__", props=["C08"],
+               setup=lambda I: {"self": mkr(I), "docnum": z3.Int("docnum")},
+               requires=[r_wf], ensures=[r_post], returns=lambda I, env: BytesVal.fresh(I, "item"),
+               canaries=[Canary("base-ignored", "return self._dbfile.get(self._basepos + offset, length)", "return self._dbfile.get(offset, length)"),
+                         Canary("neighbour-row", "offset = self._offsets[docnum]", "offset = self._offsets[docnum] + 1")],
+               note="row docnum is the string stored at basepos + offsets[docnum] (the empty default when its length is 0)")
